@@ -446,6 +446,22 @@ def rule_fail_all(ctx):
     ctx.rep.rule(R, "a dying sender fails everything: _fail_all is attached to the sender task with no suspension in between; it calls "
                     "fail_all + fatal_error with the task's exception; fail_all covers queued and pending batches and stores _exception; "
                     "add_message / add_batch test _closed and _exception with no suspension before enqueuing")
+    # a request task that died must take the sender down with it (only then are its batches failed): the routine retrieves the result
+    # of every task asyncio.wait reported done, before dropping it from its set
+    fr = ctx.fn(f"{SENDER}._sender_routine")
+    cr = ctx.cfg(fr)
+    wt = [n for n in cr.nodes if n.kind == "await" and isinstance(n.ast, ast.Await) and isinstance(n.ast.value, ast.Call) and call_name(n.ast.value) == "asyncio.wait"
+          and isinstance(n.stmt, ast.Assign) and isinstance(n.stmt.targets[0], ast.Tuple)]
+    okr = len(wt) == 1
+    if okr:
+        dn = unparse(n_.stmt.targets[0].elts[0]) if (n_ := wt[0]) else None
+        loops = [h for h in cr.nodes if h.kind == "fornext" and unparse(h.ast.iter) == dn]
+        res = [x for x in cr.calls(attr="result") if loops and x in cr.reachable([m for m, l in loops[0].succ if l == "T"], avoid=[cr.loop_head(loops[0].ast)], exc=False, include_src=True)]
+        drops = [x for x in cr.nodes if x.kind == "store" and isinstance(x.stmt, ast.AugAssign) and unparse(x.stmt.value) == dn]
+        okr = len(loops) == 1 and bool(res) and bool(drops) and all(cr.dominates(loops[0], d) for d in drops) \
+            and all(unparse(x.ast.func.value) == unparse(loops[0].ast.target) for x in res)
+    ctx.ob(R, fr, fr.node, okr, "the sender routine drops finished request tasks without retrieving their result: a task that died is forgotten, the sender lives on "
+                                "and the batches that task was responsible for are never resolved", text="done-tasks-checked")
     fi = ctx.fn(f"{SENDER}.start")
     c = ctx.cfg(fi)
     ct = [n for n in c.calls(attr="create_task") if n.ast.args and "_sender_routine" in unparse(n.ast.args[0])]
